@@ -43,6 +43,32 @@ def _strip(c):
     return {k: v for k, v in c.items() if k != "coq"}
 
 
+def _script_form(h):
+    if h.startswith("5120") and len(h) == 68:
+        return "p2tr"
+    if h.startswith("0014") and len(h) == 44:
+        return "p2wpkh"
+    if h.startswith("0020") and len(h) == 68:
+        return "p2wsh"
+    if h.startswith("a914") and len(h) == 46:
+        return "p2sh"
+    return "other"
+
+
+def _upfront_cov(cases):
+    d = {}
+    for c in cases:
+        up = c["setup"]["holder_shutdown_script"]
+        if not up:
+            continue
+        k = d.setdefault("%s/%s" % (c["channel_set_up_by"], _script_form(up)), [0, 0, 0, 0])
+        to_up = c["intent"]["holder_script"] == "upfront"
+        k[0 if to_up else 2] += 1
+        if c["channel_code"] == 0:
+            k[1 if to_up else 3] += 1
+    return d
+
+
 def _count_events(cases, what):
     n = 0
     for c in cases:
@@ -201,7 +227,11 @@ def run(res):
                 "edited at run time by add / remove / set; in 2 of 5 channels an entry is taken off the list, the signer restarted and "
                 "closes paying the holder there requested.  'Allowlisted' in the model input and in the monitor is the harness's own "
                 "record of the operator's list (initial + adds - removes, or exactly the last replacement; restarts change nothing), "
-                "never the node's answer.  Half of the channels are set up by a SetupChannel message and half of the requests travel "
+                "never the node's answer.  The upfront shutdown script takes every form a SetupChannel message can carry (none; wallet "
+                "p2wpkh / p2sh-p2wpkh / p2tr; somebody else's p2wpkh / p2wsh / p2tr; allowlisted before the set-up or not) and "
+                "the model's holder_shutdown_script and the monitor's upfront clause are the harness's record of what was SENT, not "
+                "the signer's stored setup; closes then pay the upfront script (3 of 5) or another wallet / allowlisted / foreign one.  "
+                "Half of the channels are set up by a SetupChannel message and half of the requests travel "
                 "as SignMutualCloseTx (tx + PSBT whose outputs carry the paths as bip32_derivation or tap_key_origins, own "
                 "unsigned tx resized / perturbed, arbitrary remote_funding_key and scripts) or SignMutualCloseTx2 messages, encoded "
                 "with as_vec, decoded with from_vec and handled by the ChannelHandler at protocol 4/5/6; the model request and "
@@ -229,6 +259,8 @@ def run(res):
         "closes_to_a_script_taken_off_the_allowlist(requests, signed)": [
             len([c for c in cases if c["intent"]["holder_script"] == "taken-off-the-allowlist"]),
             len([c for c in cases if c["intent"]["holder_script"] == "taken-off-the-allowlist" and c["channel_code"] == 0])],
+        "closes_on_channels_with_an_upfront_script(set-up route/form: [to upfront, signed, to another script, signed])":
+            _upfront_cov(cases),
         "phase1_signed": len(p1_signed),
         "phase1_signed_by_second_attempt": len(second),
         "wallet_answers(can_spend/allowlisted)": _wallet_dist(cases),
